@@ -35,10 +35,11 @@ type job struct {
 	Order string `json:"order"` // e.g. "ABC", "CBA", "concurrent"
 	// fault: the receive handler fails at chunk FailChunk of the FailXfer-th
 	// shard transfer (1-based, counted over the whole world); 0 = no fault
-	FailXfer  int `json:"failXfer"`
-	FailChunk int `json:"failChunk"`
-	Torn      int `json:"torn"`    // after the failed run truncate the partial destination file: -1 untouched, 0, 1, or 2 = size-1
-	BigFile   int `json:"bigFile"` // add a synthetic shard file of this many bytes (0 = none)
+	FailXfer  int  `json:"failXfer"`
+	FailChunk int  `json:"failChunk"`
+	Corrupt   bool `json:"corrupt,omitempty"` // instead of failing, the chunk arrives with its last byte flipped
+	Torn      int  `json:"torn"`              // after the failed run truncate the partial destination file: -1 untouched, 0, 1, or 2 = size-1
+	BigFile   int  `json:"bigFile"`           // add a synthetic shard file of this many bytes (0 = none)
 }
 
 type viol struct {
@@ -261,6 +262,14 @@ func worker(raw json.RawMessage) (json.RawMessage, error) {
 					xfer++
 				}
 				if xfer == j.FailXfer && a.ChunkIndex == j.FailChunk && !res.Fired {
+					if j.Corrupt {
+						if len(a.ChunkData) == 0 {
+							return nil // the end marker carries no data
+						}
+						res.Fired = true
+						a.ChunkData[len(a.ChunkData)-1] ^= 0xff
+						return nil
+					}
 					res.Fired = true
 					return fmt.Errorf("injected failure of the receive handler at chunk %d", a.ChunkIndex)
 				}
@@ -453,7 +462,7 @@ func (w *world) checkPlacement(res *result, j job, all int, origFiles map[string
 }
 
 func master(cfg *harness.Config, rep *harness.Report) {
-	rep.Rule = "worlds = all ordered pairs of different non-empty server sets over {A,B,C} (grow, shrink, replace, disjoint) x placement seeds x Sync order (every node of old ∪ new runs its start-up Sync: all permutations, and all concurrently); data = 4 users with one collection of 2..5 points at 2 points per shard (1-3 shards each), created through the old cluster. Faults: for every world with transfers, the receive handler fails at chunk k in {0, 1 (= the end marker for single-chunk files), ...} of the t-th transfer; afterwards the partial destination file is left as is or truncated to 0 / 1 / size-1 bytes, all nodes restart and synchronise twice. Oracle: after an interrupted run every record and an intact copy of every shard file still exists somewhere; after the (recovery) synchronisation every record and shard file is on exactly its RendezvousHash owner, byte-identical, and every point is readable through every new node. distinct_nontrivial = worlds in which at least one shard had to move"
+	rep.Rule = "worlds = all ordered pairs of different non-empty server sets over {A,B,C} (grow, shrink, replace, disjoint) x placement seeds x Sync order (every node of old ∪ new runs its start-up Sync: all permutations, and all concurrently); data = 4 users with one collection of 2..5 points at 2 points per shard (1-3 shards each), created through the old cluster. Faults: for every world with transfers, the receive handler fails at chunk k in {0, 1 (= the end marker for single-chunk files), ...} of the t-th transfer, or a data chunk arrives with its last byte flipped (so only the checksum can tell); afterwards the partial destination file is left as is or truncated to 0 / 1 / size-1 bytes, all nodes restart and synchronise twice. Oracle: after an interrupted run every record and an intact copy of every shard file still exists somewhere; after the (recovery) synchronisation every record and shard file is on exactly its RendezvousHash owner, byte-identical, and every point is readable through every new node. distinct_nontrivial = worlds in which at least one shard had to move"
 	rep.Assumptions = []string{"a sender killed mid-run is modelled by its Sync returning an error (main.go exits); a receiver killed after writing chunk k leaves the same files as a failure before chunk k+1", "RpcRetries 1 (more retries sleep 2^i s)", "real kill -9 during write(2) is replaced by the enumeration of torn destination files"}
 	p := pool.New(pool.Options{CPUsPerWorker: 2, JobTimeout: 300 * time.Second})
 	var jobs []job
@@ -502,6 +511,10 @@ func master(cfg *harness.Config, rep *harness.Report) {
 							for _, t := range torns {
 								jobs = append(jobs, job{Old: old, New: nw, Seed: seed, Order: orders[0], FailXfer: x, FailChunk: k, Torn: t})
 							}
+							if k == 0 {
+								// the data chunk of a (single-chunk) real shard file arrives damaged
+								jobs = append(jobs, job{Old: old, New: nw, Seed: seed, Order: orders[0], FailXfer: x, FailChunk: 0, Torn: -1, Corrupt: true})
+							}
 						}
 					}
 				}
@@ -520,6 +533,7 @@ func master(cfg *harness.Config, rep *harness.Report) {
 				// the big file is found first or last by the walk; fail every transfer position once
 				for x := 1; x <= 2; x++ {
 					jobs = append(jobs, job{Old: 1, New: 2, Seed: 1, Order: "AB", FailXfer: x, FailChunk: k, Torn: -1, BigFile: sz})
+					jobs = append(jobs, job{Old: 1, New: 2, Seed: 1, Order: "AB", FailXfer: x, FailChunk: k, Torn: -1, BigFile: sz, Corrupt: true})
 				}
 			}
 		}
@@ -556,7 +570,7 @@ func master(cfg *harness.Config, rep *harness.Report) {
 			moved++
 		}
 		for _, v := range res.Viols {
-			rep.Violate(harness.Violation{Sig: v.Sig, Detail: fmt.Sprintf("[old %v -> new %v, seed %d, sync order %s, fault: transfer %d chunk %d, torn %d, big file %d] %s", members(j.Old), members(j.New), j.Seed, j.Order, j.FailXfer, j.FailChunk, j.Torn, j.BigFile, v.Detail), Replay: j})
+			rep.Violate(harness.Violation{Sig: v.Sig, Detail: fmt.Sprintf("[old %v -> new %v, seed %d, sync order %s, fault: transfer %d chunk %d (corrupt=%v), torn %d, big file %d] %s", members(j.Old), members(j.New), j.Seed, j.Order, j.FailXfer, j.FailChunk, j.Corrupt, j.Torn, j.BigFile, v.Detail), Replay: j})
 		}
 		if i%97 == 0 {
 			rep.Sample(j)
